@@ -102,6 +102,35 @@ def main():
                 ck.violation('%s: multiunion of %d elements in %d operands: C and Python differ (C %s %s..., Python %s %s...)' % (
                     fam, a['total'], len(a['ops']), a['kind'], str(a['got'][:12]), b['kind'], str(b['got'][:12])),
                     dict(kind='multiunion-pair-differs', fam=fam, total=a['total'], c=a['got'][:60], py=b['got'][:60]))
+    # (4) conflict resolution side by side: the same triples of leaf states (every triple of a small universe) given to the
+    #     C and to the Python _p_resolveConflict - merged state or refusal reason must be equal
+    cplan = []
+    for fam in (['II', 'OO'] if quick else ['II', 'OO', 'LF', 'fs', 'QQ', 'IO']):
+        for is_set in (False, True):
+            for impl in ('c', 'py'):
+                cplan.append(dict(fam=fam, impl=impl, is_set=is_set, emb='mid', nkeys=3, nvals=2, links=[(0, 0, 0)],
+                                  select=[2, ck.seed % 2] if quick else None))
+    cby = {}
+    for job, res, err in jobs.run_jobs('harness.workers.merge_worker', cplan):
+        if err:
+            ck.violation('merge worker died %s %s: %s' % (job['fam'], job['impl'], err[-1500:]), dict(kind='crash', fam=job['fam'], impl=job['impl'], err=err[-3000:]))
+            continue
+        d = {}
+        for r in res['records']:
+            # (records are distinct (triple, outcome) pairs: the set of outcomes of a triple - leaf, tree, subclassed tree -
+            #  must be the same set in both implementations)
+            d.setdefault(json.dumps([r['o'], r['c'], r['n'], r['xo'], r['xc'], r['xn'], r['forms']]), set()).add(json.dumps(r['got']))
+        cby[(job['fam'], job['is_set'], job['impl'])] = d
+    for (fam, is_set, impl), dc in sorted(cby.items()):
+        if impl != 'c' or (fam, is_set, 'py') not in cby:
+            continue
+        dp = cby[(fam, is_set, 'py')]
+        ck.bump('merge_pairs', len(dc))
+        ck.add_traces(len(dc))
+        for k in dc:
+            if k in dp and dc[k] != dp[k]:
+                ck.violation('%s %s: _p_resolveConflict%s: C %s, Python %s' % (fam, 'set' if is_set else 'map', k, sorted(dc[k]), sorted(dp[k])),
+                             dict(kind='merge-pair-differs', fam=fam, is_set=is_set, triple=json.loads(k), c=sorted(dc[k]), py=sorted(dp[k])))
     ck.assumptions += ['excluded: message texts, the return value of update(); byValue is compared (finding D50)',
                        'keys of one container mutually comparable']
     ck.finish(exhaustive=False)
